@@ -220,7 +220,8 @@ def build(entry, rs, dt):
         rk = [2, 1, 2, 2]
         if entry == "tr_als":
             return lambda: D.tensor_ring_als(X3, rk, n_iter_max=it, random_state=sd, ls_solve=gen.choice(rs, ["lstsq", "normal_eq"])), real_ok
-        return lambda: D.tensor_ring_als_sampled(X3, rk, n_samples=8, n_iter_max=it, random_state=sd), real_ok
+        return lambda: D.tensor_ring_als_sampled(X3, rk, n_samples=8, n_iter_max=it, random_state=sd, uniform_sampling=bool(rs.rand() < 0.5),
+                                                 randomized_error=bool(rs.rand() < 0.3)), real_ok
     if entry == "cmtf":
         from tensorly.decomposition._cmtf_als import coupled_matrix_tensor_3d_factorization as cm
         X3 = gen.arr(rs, gen.shape(rs, 3, 3, 5), dt, "gauss")
